@@ -108,6 +108,15 @@ def census():
     return h.hexdigest()
 
 
+def census_full():
+    """Complete, order-sensitive digest of every registry (countries, banks, all indexes):
+    the pickle of the whole registry object graph (about 50 ms)."""
+    import hashlib
+    import pickle
+    from schwifty import registry
+    return hashlib.sha256(pickle.dumps(registry._registry, protocol=4)).hexdigest()[:20]
+
+
 def snapshot_nonscratch():
     return sorted(algorithms)
 
@@ -305,6 +314,9 @@ def count_lines(calls):
     return res
 
 
+_full0 = [None]
+
+
 def witnesses():
     """Objects created before the history; their projections must never change."""
     from schwifty import BIC, IBAN
@@ -337,11 +349,14 @@ def run_history(calls):
             return hashlib.sha256((census() + repr(project(objs))).encode()).hexdigest()[:16]
 
         census0 = dig()
+        if _full0[0] is None:
+            _full0[0] = census_full()          # once per process: the state right after import
+        full0 = _full0[0]
         init = snapshot()
         steps = []
         for op, rec in zip(calls, run_solo_with_values_iter(calls)):
             steps.append({"out": rec["out"], "acc": rec["acc"], "census": dig()})
-        return {"census0": census0, "steps": steps, "init": init}
+        return {"census0": census0, "steps": steps, "init": init, "full0": full0, "full_end": census_full()}
     finally:
         _props[0] = False
 
